@@ -229,14 +229,26 @@ func (r *Report) absorb(hr *HarnessResult, outDir string, prog *ssa.Program, sp 
 		}
 		b, _ := json.MarshalIndent(p.w, "", " ")
 		os.WriteFile(wpath, b, 0o644)
-		reproduced := false
-		if p.o.Kind == "panic" {
-			reproduced = out.Panic != ""
-		} else {
+		repro := func(out ReplayOutcome) bool {
+			if p.o.Kind == "panic" {
+				return out.Panic != ""
+			}
 			for _, f := range out.Fails {
 				if f == p.o.Label {
-					reproduced = true
+					return true
 				}
+			}
+			return false
+		}
+		reproduced := repro(out)
+		// the real code may depend on Go's random map iteration order (the engine walks maps in key order): one
+		// native run that shows the failure is proof enough, so a run that does not is repeated a few times
+		for try := 0; !reproduced && out.Err == "" && !out.Outside && try < 4; try++ {
+			again := replayBatch(outDir, hr.Dir, []*Witness{p.w})
+			if len(again) == 1 && again[0].Err == "" && repro(again[0]) {
+				reproduced = true
+				out = again[0]
+				r.notes = append(r.notes, fmt.Sprintf("%s: counterexample reproduces natively in some runs only (map iteration order)", id))
 			}
 		}
 		switch {
